@@ -239,7 +239,7 @@ func genWork(r *Rand, i int, tier string) []string {
 	type chain struct {
 		cur  int // round being submitted
 		plan map[int][]c26PlanSnap
-		sent int // length of the prefix submitted for cur
+		sent int  // length of the prefix submitted for cur
 		live bool // a submission has been stored
 	}
 	chains := map[int]*chain{}
@@ -328,6 +328,9 @@ func genWork(r *Rand, i int, tier string) []string {
 	if r.Chance(1, 20) {
 		reopens = 1
 	}
+	// once a malformed call was generated the plans may share hashes between rounds: every later
+	// submission of the case is labelled submitx (outside the property's preconditions)
+	submit := "submit"
 	nops := r.Range(4, 40)
 	for j := 0; j < nops; j++ {
 		node := r.Range(1, nNodes)
@@ -343,7 +346,7 @@ func genWork(r *Rand, i int, tier string) []string {
 			if ch.sent < len(p) {
 				ch.sent += r.Range(1, len(p)-ch.sent)
 			}
-			lines = append(lines, c26Line("submit", node, ch.cur, credit, p[:ch.sent]))
+			lines = append(lines, c26Line(submit, node, ch.cur, credit, p[:ch.sent]))
 			if poison(node, p[old:ch.sent], credit) {
 				ch.sent = old // the call panics, nothing is stored
 			} else {
@@ -361,7 +364,7 @@ func genWork(r *Rand, i int, tier string) []string {
 					p[a], p[b] = p[b], p[a]
 				}
 			}
-			lines = append(lines, c26Line("submit", node, ch.cur, credit, p))
+			lines = append(lines, c26Line(submit, node, ch.cur, credit, p))
 		case 9, 10, 11, 12: // next round
 			if ch.live {
 				ch.cur++
@@ -369,7 +372,7 @@ func genWork(r *Rand, i int, tier string) []string {
 			ch.sent = 0
 			p := planRound(node, ch, ch.cur)
 			ch.sent = r.Range(0, len(p))
-			lines = append(lines, c26Line("submit", node, ch.cur, credit, p[:ch.sent]))
+			lines = append(lines, c26Line(submit, node, ch.cur, credit, p[:ch.sent]))
 			if poison(node, p[:ch.sent], credit) {
 				if ch.live {
 					ch.cur-- // the call panics: still in the previous round, whose prefix length is unknown
@@ -384,17 +387,17 @@ func genWork(r *Rand, i int, tier string) []string {
 			if ch.cur > 0 {
 				old := r.Range(0, ch.cur-1)
 				p := planRound(node, ch, old)
-				lines = append(lines, c26Line("submit", node, old, credit, p[:r.Range(0, len(p))]))
+				lines = append(lines, c26Line(submit, node, old, credit, p[:r.Range(0, len(p))]))
 			}
 		case 14: // round too far ahead: panic
-			lines = append(lines, c26Line("submit", node, ch.cur+r.Range(2, 3), credit, planRound(node, ch, ch.cur+5)))
+			lines = append(lines, c26Line(submit, node, ch.cur+r.Range(2, 3), credit, planRound(node, ch, ch.cur+5)))
 		case 15: // shrinking set: panic when a checkpointed snapshot is missing
 			p := planRound(node, ch, ch.cur)
 			if ch.sent > len(p) {
 				ch.sent = len(p)
 			}
 			if ch.sent > 1 {
-				lines = append(lines, c26Line("submit", node, ch.cur, credit, p[1:ch.sent]))
+				lines = append(lines, c26Line(submit, node, ch.cur, credit, p[1:ch.sent]))
 			}
 		case 16: // malformed submissions, outside the property's preconditions
 			p := append([]c26PlanSnap{}, planRound(node, ch, ch.cur)...)
@@ -417,7 +420,8 @@ func genWork(r *Rand, i int, tier string) []string {
 				ch.plan[ch.cur] = p
 			}
 			ch.sent = len(p)
-			lines = append(lines, c26Line("submitx", node, ch.cur, credit, p))
+			submit = "submitx"
+			lines = append(lines, c26Line(submit, node, ch.cur, credit, p))
 		case 17, 18, 19, 20:
 			reads()
 		case 21:
